@@ -3,6 +3,7 @@ package main
 import (
 	"fmt"
 	"math"
+	"os"
 	"path/filepath"
 	"sort"
 	"strings"
@@ -257,6 +258,9 @@ func runC01(r *run) {
 			{"a.tpl": "{% extends \"b.tpl\" %}", "b.tpl": "{% extends \"a.tpl\" %}"},
 			{"a.tpl": "{% set n = \"a.tpl\" %}x{% include n %}"},
 		} {
+			if os.Getenv("VERIF_SKIP_CRASHING") == "1" {
+				continue // coverage measurement: a crashed child loses its counters
+			}
 			wc := &world{files: []map[string]string{fs}}
 			cases = append(cases, caseT{"cyclic", wc.args("a.tpl", nil)})
 		}
